@@ -49,6 +49,7 @@ PROFILES = {
         "n_sigs": (2, 4),
         "chaos_ops": (2, 5),
         "spy": ["scripted", "scripted", "spy", "off"],
+        "large_batch_p": 0.2,
         "shock_sparsity": [0.0, 0.5, 0.8],
         "pool": (30, 60),
         "on_grid_bias": 0.3,
@@ -163,6 +164,13 @@ def make_run_plan(run_seed: int, profile: str, tier: str = "quick", overrides: d
         P.update(overrides)
     rng = random.Random(f"dsim:{profile}:{run_seed}")
     b = _B(rng)
+    if tier == "thorough":
+        # deeper bounds: longer sessions, longer horizons, one more caller thread
+        lo_c, hi_c = P["chaos_ops"]
+        P["chaos_ops"] = (lo_c, hi_c + max(2, hi_c // 2))
+        P["want"] = [dict(w, periods=w.get("periods", (1, 5))) for w in P["want"]]
+        if profile == "C09":
+            P["workers"] = [*P["workers"], 4]
 
     # ---------------------------------------------------------------- swarm knobs
     n_models = rng.choice(P["n_models"])
@@ -265,9 +273,15 @@ def make_run_plan(run_seed: int, profile: str, tier: str = "quick", overrides: d
                 "model": mid, "agents": agents, "key_order": ko, "content": bid, "int_dtype": rng.choice(["int64", "int32"]),
                 "a_dtype": rng.choice([a_dtype, "float64"]),
             }
+        if not P.get("membership") and not big and rng.random() < P.get("large_batch_p", 0.0):
+            # one long frame (tens of thousands of rows): row (t, i) must still be agent i in period t
+            nlarge = rng.choice([rng.randint(5500, 9000), rng.randint(16500, 21000)])
+            lb = f"{mid}b{nb}"
+            b.batches[lb] = {"model": mid, "agents": {"gen_seed": rng.randrange(2**31), "n": nlarge, "on_grid_bias": P["on_grid_bias"]}, "key_order": list(recipe["states_order"]), "content": lb, "int_dtype": "int64", "a_dtype": "float64"}
+            b.batches[lb + "~v"] = dict(b.batches[lb])
         if P.get("membership") and rng.random() < P.get("big_batch_p", 0.3):
             # one large batch and a small one made of its first and last agents
-            nbig = rng.randint(4200, 9000)
+            nbig = rng.randint(4200, 9000) if rng.random() < 0.7 else rng.randint(16500, 21000)
             gen = {"gen_seed": rng.randrange(2**31), "n": nbig, "on_grid_bias": P["on_grid_bias"]}
             full = catalogue.expand_agents(recipe, gen)
             small = copy.deepcopy(full[:8] + full[-14:])
@@ -390,7 +404,12 @@ def make_run_plan(run_seed: int, profile: str, tier: str = "quick", overrides: d
         }
 
     def build_op(hid, mid, target, jit, debug, worker=0):
-        return {"id": b.oid(), "kind": "BUILD", "worker": worker, "handle": hid, "model": mid, "model_id": mid, "target": target, "jit": jit, "debug": debug}
+        o = {"id": b.oid(), "kind": "BUILD", "worker": worker, "handle": hid, "model": mid, "model_id": mid, "target": target, "jit": jit, "debug": debug}
+        if rng.random() < P.get("fill_template_p", 0.4):
+            pids_m = sorted(p for p in b.params if b.params[p]["model"] == mid)
+            o["fill"] = rng.choice(pids_m)
+            o["fill_leaf"] = rng.choice(["float", "float", "np", "jax"])
+        return o
 
     # ---------------------------------------------------------------- reference phase
     ref_ops = []
@@ -456,7 +475,7 @@ def make_run_plan(run_seed: int, profile: str, tier: str = "quick", overrides: d
                 op["needs"] = [first_build[mids[0]]]
             first_build.setdefault(mid, op["id"])
             ops.append(op)
-            handles.append({"hid": hid, "mid": mid, "target": target, "build": op["id"], "jit": op["jit"]})
+            handles.append({"hid": hid, "mid": mid, "target": target, "build": op["id"], "jit": op["jit"], "fill": op.get("fill"), "fill_leaf": op.get("fill_leaf")})
         # value arrays from the durable store (after a restart)
         for (mid, pid), key in store_keys.items():
             op = {"id": b.oid(), "kind": "LOAD", "worker": rng.randrange(n_workers), "key": key, "as": rng.choice(["np", "jax"]), "model_id": mid}
@@ -609,6 +628,10 @@ def make_run_plan(run_seed: int, profile: str, tier: str = "quick", overrides: d
                 priv[key] = (s["pid"], mleaf)
                 op["pobj"] = key
                 op["leaf"] = mleaf
+            hfill = next((h for h in handles if h["hid"] == op["handle"] and h.get("fill") == op["params"]), None)
+            if hfill is not None and not op.get("pobj") and rng.random() < 0.5:
+                op["pobj"] = f"T:{hfill['hid']}"  # the filled-in template itself is passed as params
+                op["leaf"] = hfill["fill_leaf"]
             if extras["transient"] and not op.get("pobj") and rng.random() < 0.6:
                 op["transient"] = rng.choice([True, "template", "template"])  # arguments built for this call only (their ids get recycled)
             ops.append(op)
